@@ -1,6 +1,10 @@
 package main
 
 import (
+	"runtime/debug"
+	"runtime/pprof"
+	"strconv"
+	"strings"
 	"encoding/json"
 	"flag"
 	"fmt"
@@ -9,6 +13,7 @@ import (
 )
 
 func main() {
+	debug.SetGCPercent(600)
 	if len(os.Args) < 2 {
 		fmt.Fprintln(os.Stderr, "usage: symgo run|check ...")
 		os.Exit(2)
@@ -37,6 +42,8 @@ func cmdRun(args []string) {
 	profile := fs.Bool("profile", false, "profile steps per function")
 	budget := fs.Duration("budget", 0, "time budget")
 	maxPaths := fs.Int("maxpaths", 0, "max paths")
+	cpuprof := fs.String("cpuprofile", "", "cpu profile file")
+	params := fs.String("params", "", "k=v,k=v")
 	fs.Parse(args)
 	t0 := time.Now()
 	env, err := LoadEnv(*dir, []string{"."})
@@ -48,6 +55,19 @@ func cmdRun(args []string) {
 	cfg := &RunConfig{Workers: *workers, Unwind: *unwind, TimeoutMs: *timeout, Profile: *profile, Budget: *budget, MaxPaths: *maxPaths}
 	if *witness != "" {
 		cfg.Concrete = loadWitness(*witness)
+	}
+	if *params != "" {
+		cfg.Params = map[string]int{}
+		for _, kv := range strings.Split(*params, ",") {
+			p := strings.SplitN(kv, "=", 2)
+			n, _ := strconv.Atoi(p[1])
+			cfg.Params[p[0]] = n
+		}
+	}
+	if *cpuprof != "" {
+		f, _ := os.Create(*cpuprof)
+		pprof.StartCPUProfile(f)
+		defer pprof.StopCPUProfile()
 	}
 	t1 := time.Now()
 	ex, stats, err := Explore(env, "", *harness, cfg)
